@@ -132,6 +132,9 @@ var (
 	verifPoolMu    sync.Mutex
 	verifPoolOn    bool
 	verifPoolTrace []VerifPoolEvent
+	// verifPoolKeep holds every traced object until the next VerifPoolTraceOn, so that an address
+	// identifies one object for the whole trace (the collector cannot hand it to a new allocation).
+	verifPoolKeep []interface{}
 )
 
 // VerifPoolTraceOn starts (and clears) the global pool trace.
@@ -139,6 +142,7 @@ func VerifPoolTraceOn() {
 	verifPoolMu.Lock()
 	verifPoolOn = true
 	verifPoolTrace = nil
+	verifPoolKeep = nil
 	verifPoolMu.Unlock()
 }
 
@@ -157,6 +161,7 @@ func vpool(ev, kind int, obj interface{}) {
 			v := reflect.ValueOf(obj)
 			if v.Kind() == reflect.Ptr {
 				p = v.Pointer()
+				verifPoolKeep = append(verifPoolKeep, obj)
 			}
 		}
 		verifPoolTrace = append(verifPoolTrace, VerifPoolEvent{G: VerifGoID(), Ev: ev, Kind: kind, Obj: p})
